@@ -282,6 +282,73 @@ Definition unk_obs (d : list (Z * (Z * Z))) : list (list Z) :=
 Definition the_dir (bytes : list Z) : list (Z * (Z * Z)) :=
   match read_directory bytes with Some (_, d) => d | None => [] end.
 
+(* ---- round 4 streams.  BTreeMap<String, _>: byte-wise lexicographic key order, a later insert replaces *)
+Fixpoint lex_cmp (a b : list Z) : comparison :=
+  match a, b with
+  | [], [] => Eq
+  | [], _ => Lt
+  | _, [] => Gt
+  | x :: a', y :: b' => match x ?= y with Eq => lex_cmp a' b' | c => c end
+  end.
+Fixpoint bmap_insert {V} (k : list Z) (v : V) (l : list (list Z * V)) : list (list Z * V) :=
+  match l with
+  | [] => [(k, v)]
+  | (k', v') :: t => match lex_cmp k k' with
+                     | Lt => (k, v) :: l
+                     | Eq => (k, v) :: t
+                     | Gt => (k', v') :: bmap_insert k v t
+                     end
+  end.
+Definition bmap_of {V} (l : list (list Z * V)) : list (list Z * V) :=
+  fold_left (fun acc kv => bmap_insert (fst kv) (snd kv) acc) l [].
+(* Invalid: [0]; String: 1 :: s; UserDefined: [2; ty; reserved; value rva]; Unsupported: [3; ...] *)
+Definition annot_obs (a : mannot) : list Z :=
+  match an_value a with
+  | inl s => 1 :: str s
+  | inr r => if an_ty a =? 0 then [0] else [if 32768 <=? an_ty a then 2 else 3; an_ty a; an_reserved a; r]
+  end.
+Fixpoint cmodules_obs (i : Z) (l : list cmodule) : list (list Z) :=
+  match l with
+  | [] => []
+  | m :: t =>
+      let sm := bmap_of (cm_simple m) in
+      let ob := bmap_of (map (fun a => (an_name a, a)) (cm_objects m)) in
+      [[2; i; cm_index m; cm_version m; zlen (cm_list m); zlen sm; zlen ob]]
+      ++ map (fun s => [3; i] ++ str s) (cm_list m)
+      ++ map (fun kv => [4; i] ++ str (fst kv) ++ str (snd kv)) sm
+      ++ map (fun kv => [5; i] ++ str (fst kv) ++ annot_obs (snd kv)) ob
+      ++ cmodules_obs (i + 1) t
+  end.
+Definition crashpad_obs (x : mcrashpad) : list (list Z) :=
+  [[0; cp_version x] ++ cp_report x ++ cp_client x]
+  ++ map (fun kv => [1] ++ str (fst kv) ++ str (snd kv)) (bmap_of (cp_simple x))
+  ++ cmodules_obs 0 (cp_modules x).
+
+(* token parsers of the round 4 stream models and their serializers (cross-checked against the plugin's own writer) *)
+Definition pkv : P (list Z * list Z) := let* k := pstr in let* v := pstr in pret (k, v).
+Definition pannot : P mannot :=
+  let* n := pstr in let* ty := pint in let* rs := pint in let* k := pint in
+  if k =? 0 then let* s := pstr in pret {| an_name := n; an_ty := ty; an_reserved := rs; an_value := inl s |}
+  else let* r := pint in pret {| an_name := n; an_ty := ty; an_reserved := rs; an_value := inr r |}.
+Definition pcmodule : P cmodule :=
+  let* idx := pint in let* ver := pint in let* l := plist pstr in let* sm := plist pkv in let* ob := plist pannot in
+  pret {| cm_index := idx; cm_version := ver; cm_list := l; cm_simple := sm; cm_objects := ob |}.
+Definition pcrashpad : P mcrashpad :=
+  let* ver := pint in let* rep := pints 11 in let* cl := pints 11 in let* sm := plist pkv in let* ms := plist pcmodule in
+  pret {| cp_version := ver; cp_report := rep; cp_client := cl; cp_simple := sm; cp_modules := ms |}.
+Definition pbootargs : P mbootargs :=
+  let* ty := pint in let* a := poptstr in pret {| ba_type := ty; ba_args := a |}.
+(* tokens: kind (2 bootargs | 3 crashpad), endian, offset, the model -> the section's bytes *)
+Definition run_encode_stream (toks : list Z) : option (list Z) :=
+  match toks with
+  | kind :: en :: off :: r =>
+      let e := if en =? 0 then LE else BE in
+      if kind =? 2 then match pbootargs r with Some (x, _) => Some (snd (enc_bootargs e off x)) | None => None end
+      else if kind =? 3 then match pcrashpad r with Some (x, _) => Some (snd (enc_crashpad e off x)) | None => None end
+      else None
+  | _ => None
+  end.
+
 Definition run_observe (bytes : list Z) : option (list (Z * list (list Z))) :=
   match decode_dump bytes with
   | None => None
@@ -323,5 +390,8 @@ Definition run_observe (bytes : list Z) : option (list (Z * list (list Z))) :=
              sec (v_handles v) (fun x => map (fun h => [if fst x then 2 else 1; h_handle h; h_attr h; h_access h; h_hcount h; h_pcount h]
                                                        ++ ostr (h_type h) ++ ostr (h_object h)) (snd x));
              (2, dir_obs bytes (the_dir bytes));
-             (2, unk_obs (the_dir bytes)) ]
+             (2, unk_obs (the_dir bytes));
+             sec (get_stream dec_softerr e bytes (the_dir bytes) ST_MozSoftErrors) (fun b => [str b]);
+             sec (get_stream dec_bootargs e bytes (the_dir bytes) ST_MozMacosBootargsStream) (fun x => [ba_type x :: ostr (ba_args x)]);
+             sec (get_stream dec_crashpad e bytes (the_dir bytes) ST_CrashpadInfoStream) crashpad_obs ]
   end.
